@@ -67,7 +67,7 @@ def build_fn(rng: random.Random) -> Any:
     n = rng.randrange(2, 5)
     x = pt.make_placeholder("x", (n, 3), np.float64)
     y = pt.make_placeholder("y", (3,), np.float64)
-    variant = rng.randrange(4)
+    variant = rng.randrange(6)
 
     def f(a: Any, b: Any) -> Any:
         t = a * 2 + b
@@ -94,6 +94,28 @@ def build_fn(rng: random.Random) -> Any:
         def outer(a: Any, b: Any) -> Any:           # nested call
             return trace_call(f, a, b) * 2
         outs["nested"] = trace_call(outer, x, y)
+    if variant >= 4:
+        # ONE inner definition object called from two different bodies and from the top
+        # level; a body with two results that share one nested call
+        def inner(a: Any) -> Any:
+            return a * a + 1
+        seed_call = trace_call(inner, x)
+        gdef = seed_call._container.function        # the FunctionDefinition object
+
+        def call_inner(a: Any) -> Any:
+            return gdef(in__pt_0=a)
+
+        def f1(a: Any) -> Any:
+            return call_inner(a) * 3
+
+        def f2(a: Any) -> Any:
+            t = call_inner(a)
+            return {"u": t + 1, "v": 3 * t}
+        d2 = trace_call(f2, x)
+        outs["f1"] = trace_call(f1, x)
+        outs["f2u"] = d2["u"]
+        outs["f2v"] = d2["v"]
+        outs["top"] = seed_call + call_inner(x + 1)
     return pt.make_dict_of_named_arrays(outs)
 
 
@@ -245,5 +267,8 @@ def build_misc(rng: random.Random, dw: bool = False) -> Any:
             dw1 = pt.make_data_wrapper(buf)
             dw2 = pt.make_data_wrapper(buf, tags=frozenset({VTag(3)}))
             outs["n2"] = inner["p"] * dw1
+            # a size parameter reachable ONLY through the shape of wrapped data
+            nn = pt.make_size_param("nn")
+            outs["dwsym"] = pt.roll(pt.make_data_wrapper(np.arange(6.0), shape=(nn,)), 1)
             outs["o"] = dw2[i1, :, ][:, ::2] + pt.make_data_wrapper(np.ones(2))
     return pt.make_dict_of_named_arrays(outs)
